@@ -35,8 +35,8 @@ ASSUMPTIONS = ["model/edwards.py: the complete affine law of a x^2 + y^2 = 1 + d
                "ed_upk of an ordinate that belongs to no point and deep decoding checks belong to C07; here only "
                "round trips of curve points are judged"]
 
-KNOWN = os.path.join(os.path.dirname(os.path.dirname(os.path.dirname(os.path.abspath(__file__)))),
-                     "known_findings.jsonl")
+KNOWN = os.environ.get("VF_KNOWN") or os.path.join(
+    os.path.dirname(os.path.dirname(os.path.dirname(os.path.abspath(__file__)))), "known_findings.jsonl")
 
 # Fatal defects listed as known are produced by one directed case each (first thing in one shard); the generators
 # step around the predicate while the finding is listed (see C16.py).  name -> [key pattern of the known finding]
